@@ -335,13 +335,184 @@ impl Family for PrepareShapes {
     }
 }
 
+
+/// Metadata on one connection is a *history*: every sequence of metadata-bearing exchanges
+/// (resultset headers in text and binary mode, chained headers in one response, PREPARE replies
+/// that reuse a statement id with other counts) over a palette of column lists built to collide
+/// (same table+name concatenation split differently, lists differing only in flags / type /
+/// order / one name). Whatever came before, each header must equal what the shim declares now.
+#[derive(Clone, Debug)]
+enum MetaEv {
+    Rs(usize),
+    Exec(usize),
+    Rs2(usize, usize),
+    Prep(u32, usize, usize),
+}
+
+fn palette() -> Vec<Arc<Vec<Column>>> {
+    let c = |t: &str, n: &str, ty: ColumnType, f: ColumnFlags| Column { table: t.into(), column: n.into(), coltype: ty, colflags: f };
+    let l = ColumnType::MYSQL_TYPE_LONG;
+    let e = ColumnFlags::empty();
+    vec![
+        vec![c("orders", "id", l, e)],
+        vec![c("order", "sid", l, e)],
+        vec![c("", "ordersid", l, e)],
+        vec![c("ordersid", "", l, e)],
+        vec![c("orders", "id", l, ColumnFlags::UNSIGNED_FLAG)],
+        vec![c("orders", "id", ColumnType::MYSQL_TYPE_LONGLONG, e)],
+        vec![c("orders", "id", l, e), c("orders", "x", l, e)],
+        vec![c("orders", "id", l, e), c("orders", "y", l, e)],
+        vec![c("orders", "x", l, e), c("orders", "id", l, e)],
+        vec![],
+        vec![c("t", "a", ColumnType::MYSQL_TYPE_VAR_STRING, e), c("t", "b", ColumnType::MYSQL_TYPE_DOUBLE, ColumnFlags::NOT_NULL_FLAG), c("t", "c", ColumnType::MYSQL_TYPE_DATETIME, e)],
+        vec![c("t", "a", ColumnType::MYSQL_TYPE_VAR_STRING, e), c("t", "b", ColumnType::MYSQL_TYPE_DOUBLE, e), c("t", "c", ColumnType::MYSQL_TYPE_DATETIME, e)],
+    ]
+    .into_iter()
+    .map(Arc::new)
+    .collect()
+}
+
+fn param_palette() -> Vec<Arc<Vec<Column>>> {
+    let c = |n: &str, ty: ColumnType, f: ColumnFlags| Column { table: String::new(), column: n.into(), coltype: ty, colflags: f };
+    vec![
+        vec![],
+        vec![c("?", ColumnType::MYSQL_TYPE_VAR_STRING, ColumnFlags::empty())],
+        vec![c("?", ColumnType::MYSQL_TYPE_VAR_STRING, ColumnFlags::empty()), c("?", ColumnType::MYSQL_TYPE_VAR_STRING, ColumnFlags::empty())],
+        vec![c("a", ColumnType::MYSQL_TYPE_LONG, ColumnFlags::empty()), c("b", ColumnType::MYSQL_TYPE_LONG, ColumnFlags::UNSIGNED_FLAG), c("c", ColumnType::MYSQL_TYPE_BLOB, ColumnFlags::empty())],
+    ]
+    .into_iter()
+    .map(Arc::new)
+    .collect()
+}
+
+fn meta_events() -> Vec<MetaEv> {
+    let n = palette().len();
+    let mut v = Vec::new();
+    for i in 0..n {
+        v.push(MetaEv::Rs(i));
+    }
+    for i in 0..n {
+        v.push(MetaEv::Exec(i));
+    }
+    for (a, b) in [(0, 1), (1, 0), (0, 4), (6, 7), (9, 0), (0, 9), (2, 3), (10, 11)] {
+        v.push(MetaEv::Rs2(a, b));
+    }
+    for (id, p, c) in [(1u32, 1usize, 0usize), (1, 2, 1), (1, 0, 9), (2, 1, 0), (1, 1, 4), (1, 3, 10), (1, 3, 11), (2, 2, 6)] {
+        v.push(MetaEv::Prep(id, p, c));
+    }
+    v
+}
+
+struct MetaHistories {
+    evs: Vec<MetaEv>,
+    depth: usize,
+}
+impl MetaHistories {
+    fn hist(&self, idx: u64) -> Vec<MetaEv> {
+        digits(idx, &vec![self.evs.len() as u64; self.depth]).iter().map(|i| self.evs[*i as usize].clone()).collect()
+    }
+}
+impl Family for MetaHistories {
+    fn name(&self) -> String {
+        format!("metadata-histories-depth-{}", self.depth)
+    }
+    fn len(&self) -> u64 {
+        (self.evs.len() as u64).pow(self.depth as u32)
+    }
+    fn run(&self, idx: u64, st: &mut Stats) -> Result<(), Violation> {
+        let h = self.hist(idx);
+        let pal = palette();
+        let ppal = param_palette();
+        st.nontrivial += 1;
+        st.bump("metadata_histories");
+        // statement 9 (no parameters) serves the binary-mode headers
+        let mut cmds = vec![ClientCmd::new(with_byte(COM_STMT_PREPARE, b"nine"))];
+        let mut behaviours: Vec<Behavior> = vec![Behavior::PrepReply { id: 9, params: ppal[0].clone(), cols: pal[9].clone() }];
+        for ev in &h {
+            match ev {
+                MetaEv::Rs(i) => {
+                    cmds.push(q(b"rs"));
+                    behaviours.push(Behavior::Prog(Arc::new(vec![WOp::Start(pal[*i].clone()), WOp::Finish])));
+                }
+                MetaEv::Exec(i) => {
+                    cmds.push(ClientCmd::new(cmd_execute(9, 0, 1, &[])));
+                    behaviours.push(Behavior::Prog(Arc::new(vec![WOp::Start(pal[*i].clone()), WOp::Finish])));
+                }
+                MetaEv::Rs2(a, b) => {
+                    cmds.push(q(b"rs2"));
+                    behaviours.push(Behavior::Prog(Arc::new(vec![WOp::Start(pal[*a].clone()), WOp::FinishOne, WOp::Start(pal[*b].clone()), WOp::Finish])));
+                }
+                MetaEv::Prep(id, p, c) => {
+                    cmds.push(ClientCmd::new(with_byte(COM_STMT_PREPARE, b"again")));
+                    behaviours.push(Behavior::PrepReply { id: *id, params: ppal[*p].clone(), cols: pal[*c].clone() });
+                }
+            }
+        }
+        cmds.push(ping());
+        let conv = Conv::new(cmds);
+        let s = conv.stream();
+        let stream = Arc::new(s.bytes);
+        let mut sim = sim_for(&stream, vec![]);
+        sim.log_ops = false;
+        let mut k = 0usize;
+        let bh = behaviours.clone();
+        let behave = Box::new(move |_: usize, cb: &Cb| match cb {
+            Cb::Prepare(_) | Cb::Query(_) | Cb::Execute { .. } => {
+                let b = bh[k].clone();
+                k += 1;
+                b
+            }
+            _ => Behavior::Silent,
+        });
+        let o = run_conn(sim, ConnCfg::new(behave));
+        st.transitions += h.len() as u64;
+        if let ConnResult::Panic(l, m) = &o.res {
+            return Err(Violation::new(panic_key(l, m), format!("run_on panicked at {}: {}", l, m)));
+        }
+        if !o.res.is_ok() {
+            return Err(Violation::new("result-not-ok", format!("run_on returned {}", o.res.short())));
+        }
+        let d = decode_all(&o.sim.out, &conv, &s.last_seq, conv.cmds.len(), false).map_err(|e| Violation::new("reply-decode", e))?;
+        let check_rs = |u: &Unit, want: &Arc<Vec<Column>>, what: &str| -> Result<(), Violation> {
+            match u {
+                Unit::ResultSet { cols, end: Ok(_), .. } if !want.is_empty() => check_defs(cols, want, what),
+                Unit::Ok { .. } if want.is_empty() => Ok(()),
+                other => Err(Violation::new("resultset-reply", format!("{}: {}", what, format!("{:?}", other).chars().take(80).collect::<String>()))),
+            }
+        };
+        for (i, ev) in h.iter().enumerate() {
+            let r = &d.replies[i + 1];
+            let what = format!("exchange {} of {:?}", i, h);
+            match (ev, &r[..]) {
+                (MetaEv::Rs(c), [u]) | (MetaEv::Exec(c), [u]) => check_rs(u, &pal[*c], &what)?,
+                (MetaEv::Rs2(a, b), [u1, u2]) => {
+                    check_rs(u1, &pal[*a], &what)?;
+                    check_rs(u2, &pal[*b], &what)?;
+                }
+                (MetaEv::Prep(id, p, c), [Unit::PrepareOk { id: gid, params: gp, cols: gc, .. }]) => {
+                    if gid != id {
+                        return Err(Violation::new("statement-id", format!("{}: statement id {} declared, {} decoded", what, id, gid)));
+                    }
+                    check_defs(gp, &ppal[*p], &format!("{}: PREPARE parameters", what))?;
+                    check_defs(gc, &pal[*c], &format!("{}: PREPARE columns", what))?;
+                }
+                (_, other) => return Err(Violation::new("reply-shape", format!("{}: {} unit(s)", what, other.len()))),
+            }
+        }
+        Ok(())
+    }
+    fn describe(&self, idx: u64) -> J {
+        json!(self.hist(idx).iter().map(|e| format!("{:?}", e)).collect::<Vec<_>>())
+    }
+}
+
 pub fn build(quick: bool) -> Check {
     let flags = flag_words();
     let nf = flags.len();
     Check {
         id: "C09",
         level: "model_checking",
-        rule: format!("column descriptors declared through start() and StatementMetaWriter::reply on the real run_on, decoded by refwire and by mysql_common's Column/StmtPacket: every column count 0..{} (and 65535 in thorough) with table names cycling A, tbl_b, A, \"\", multibyte; table/column name lengths {{0,1,250,251,252,65535,65536,70000}}^2 in ASCII and 2-byte UTF-8; lists of 70..4000 definitions totalling 100 KiB..400 KiB; all {} column types x all {} representable flag words; statement ids {{0,1,255,256,65535,65536,2^31,2^32-1}} x (parameters, columns) in {{0,1,2,250,251,1000}}^2. Oracle: count, order, table, name, type, flags, id and both counts equal what was declared; EOF placement per the 4.1 protocol without DEPRECATE_EOF. Non-trivial = beyond the one-byte length class.", 1000, all_types().len(), nf),
+        rule: format!("column descriptors declared through start() and StatementMetaWriter::reply on the real run_on, decoded by refwire and by mysql_common's Column/StmtPacket: every column count 0..{} (and 65535 in thorough) with table names cycling A, tbl_b, A, \"\", multibyte; table/column name lengths {{0,1,250,251,252,65535,65536,70000}}^2 in ASCII and 2-byte UTF-8; lists of 70..4000 definitions totalling 100 KiB..400 KiB; all {} column types x all {} representable flag words; statement ids {{0,1,255,256,65535,65536,2^31,2^32-1}} x (parameters, columns) in {{0,1,2,250,251,1000}}^2. Histories: every sequence of <= 3 (thorough: 4) metadata-bearing exchanges on one connection over 40 events (text and binary resultset headers, chained headers, PREPARE replies reusing an id with other counts) built from 12 column lists that collide (same table+name concatenation split differently; lists differing only in flags, type, order or one name; the empty list). Oracle: count, order, table, name, type, flags, id and both counts equal what was declared; EOF placement per the 4.1 protocol without DEPRECATE_EOF. Non-trivial = beyond the one-byte length class.", 1000, all_types().len(), nf),
         assumptions: vec!["ColumnFlags can only represent its defined bits; all representable words are covered".into()],
         bounds: json!({"max_columns": if quick {1000} else {65535}, "flag_words": nf}),
         exhaustive: true,
@@ -352,7 +523,10 @@ pub fn build(quick: bool) -> Check {
             Box::new(BulkyLists),
             Box::new(TypesFlags { flags }),
             Box::new(PrepareShapes { counts: vec![0, 1, 2, 250, 251, 1000], ids: vec![0, 1, 255, 256, 65535, 65536, 1 << 31, u32::MAX] }),
+            Box::new(MetaHistories { evs: meta_events(), depth: 1 }),
+            Box::new(MetaHistories { evs: meta_events(), depth: 2 }),
+            Box::new(MetaHistories { evs: meta_events(), depth: if quick { 3 } else { 4 } }),
         ],
-        required: vec!["more_than_250_columns", "names_longer_than_250", "type_flag_pairs", "wide_statement_ids", "bulky_lists"],
+        required: vec!["metadata_histories", "more_than_250_columns", "names_longer_than_250", "type_flag_pairs", "wide_statement_ids", "bulky_lists"],
     }
 }
